@@ -198,4 +198,23 @@ def shared(ctx):
     core.import_rules(ctx, [c20.r2_confinement], "X20")
 
 
-RULES = [r1_faucet_first, r2_mainnet, r3_dedup, r4_permanence, shared]
+def r4b_marker_unspendable(ctx):
+    """a marker can never be the input of a transaction because its covenant hash (zero) has no covenant — as long as EVERY transaction, faucets included, has its
+    inputs walked by check_tx_validity (the loop in which the covenant of each input is looked up and run).  A path to Ok around that loop lets a transaction name a
+    marker as an input; create_next_state then removes it and the faucet it stood for is accepted again.  (The clause is C04.R1 `loop/every-path`; the rest of C04.R1 —
+    the covenant-hash cache — does not concern markers and is not imported.)"""
+    from rules.props import c04
+    r = ctx.rule("R4b", "a marker cannot be spent: check_tx_validity reaches Ok only through its loop over the inputs (where the — non-existent — covenant of a marker would have to approve)")
+    b = ctx.body(c04.AP + "check_tx_validity", r)
+    loops = [l for l in q.loop_with_source(b, lambda s_: True) if sig(l[3]) == (c04.ENUM_SRC if c04._input_mode(b)[0] == "enumerate" else c04.PLAIN_SRC)]
+    if not loops:
+        r.undecided("inputs/every-tx-walked", "the loop over the inputs of check_tx_validity was not found")
+        return
+    h = loops[0][0]
+    oks_ = [bb for bb, e in q.result_blocks(b)["Ok"]]
+    around = b.reachable(0, removed=[h])
+    r.check(not any(o in around for o in oks_), "inputs/every-tx-walked", "Ok is reached only through the loop over the inputs",
+            "check_tx_validity can return Ok without walking the inputs (bb%s): a transaction taking that path can list a faucet's marker as an input and have it removed" % [o for o in oks_ if o in around], b.where(h))
+
+
+RULES = [r1_faucet_first, r2_mainnet, r3_dedup, r4_permanence, r4b_marker_unspendable, shared]
